@@ -481,4 +481,201 @@ theorem dumpList_leaf (cfg : DumpCfg) (obj vals : List (String × Val)) (m0 : Li
       exact this
 end
 
+/-! ### the extraction stage -/
+
+/-- the dumped value of a field of the object, if the field is there and its dumper succeeds -/
+def dumpedOf (cfg : DumpCfg) (obj : List (String × Val)) (id : String) : Option Val :=
+  match Val.lookup id obj with
+  | some raw =>
+    match cfg.dumper id raw with
+    | .ok v => some v
+    | .error _ => none
+  | none => none
+
+/-- the bindings made by a successful extraction stage -/
+def specVals (cfg : DumpCfg) (obj : List (String × Val)) : List Field → List (String × Val)
+  | [] => []
+  | f :: r =>
+    (match dumpedOf cfg obj f.id with
+     | some v => [(f.id, v)]
+     | none => []) ++ specVals cfg obj r
+
+theorem extractOne_errors (cfg : DumpCfg) (obj : List (String × Val)) (f : Field) (st st' : DState)
+    (h : extractOne cfg obj f st = .inl st') : ∃ l, st'.errors = st.errors ++ l := by
+  unfold extractOne at h
+  split at h
+  · split at h
+    · split at h <;> simp at h
+      exact ⟨_, by rw [← h]⟩
+    · simp at h; exact ⟨[], by simp [h]⟩
+  · split at h
+    · simp at h; exact ⟨[], by simp [← h]⟩
+    · split at h <;> simp at h
+      exact ⟨_, by rw [← h]⟩
+
+theorem extractOne_ok (cfg : DumpCfg) (obj : List (String × Val)) (f : Field) (st st' : DState)
+    (h : extractOne cfg obj f st = .inl st') (he : st'.errors = st.errors) :
+    st'.vals = st.vals ++ (match dumpedOf cfg obj f.id with | some v => [(f.id, v)] | none => []) ∧
+      (f.required = true → ∃ v, dumpedOf cfg obj f.id = some v) := by
+  unfold extractOne at h
+  unfold dumpedOf
+  split at h
+  · rename_i hl
+    split at h
+    · split at h <;> simp at h
+      rw [← h] at he
+      simp at he
+    · rename_i hreq
+      simp at h
+      subst h
+      simp [hl, hreq]
+  · rename_i raw hl
+    split at h
+    · rename_i v hd
+      simp at h
+      subst h
+      simp [hl, hd]
+    · split at h <;> simp at h
+      rw [← h] at he
+      simp at he
+
+theorem extractFields_errors (cfg : DumpCfg) (obj : List (String × Val)) : ∀ (fs : List Field) (st st' : DState),
+    extractFields cfg obj fs st = .inl st' → ∃ l, st'.errors = st.errors ++ l
+  | [], st, st', h => by simp [extractFields] at h; exact ⟨[], by simp [h]⟩
+  | f :: r, st, st', h => by
+    unfold extractFields at h
+    split at h
+    · rename_i st1 heq
+      obtain ⟨l1, h1⟩ := extractOne_errors _ _ _ _ _ heq
+      obtain ⟨l2, h2⟩ := extractFields_errors cfg obj r st1 st' h
+      exact ⟨l1 ++ l2, by rw [h2, h1, List.append_assoc]⟩
+    · simp at h
+
+theorem extractFields_ok (cfg : DumpCfg) (obj : List (String × Val)) : ∀ (fs : List Field) (st st' : DState),
+    extractFields cfg obj fs st = .inl st' → st'.errors = st.errors →
+    st'.vals = st.vals ++ specVals cfg obj fs ∧
+      ∀ f ∈ fs, f.required = true → ∃ v, dumpedOf cfg obj f.id = some v
+  | [], st, st', h, _ => by simp [extractFields] at h; simp [h, specVals]
+  | f :: r, st, st', h, he => by
+    unfold extractFields at h
+    split at h
+    · rename_i st1 heq
+      obtain ⟨l1, h1⟩ := extractOne_errors _ _ _ _ _ heq
+      obtain ⟨l2, h2⟩ := extractFields_errors cfg obj r st1 st' h
+      have hl : l1 = [] ∧ l2 = [] := by
+        rw [h2, h1, List.append_assoc] at he
+        have := congrArg List.length he
+        simp at this
+        cases l1 <;> cases l2 <;> simp_all
+      have e1 : st1.errors = st.errors := by simp [h1, hl.1]
+      have e2 : st'.errors = st1.errors := by simp [h2, hl.2]
+      obtain ⟨a1, r1⟩ := extractOne_ok _ _ _ _ _ heq e1
+      obtain ⟨a2, r2⟩ := extractFields_ok cfg obj r st1 st' h e2
+      refine ⟨by simp [a2, a1, specVals], ?_⟩
+      intro g hg hreq
+      simp only [List.mem_cons] at hg
+      rcases hg with rfl | hg
+      · exact r1 hreq
+      · exact r2 g hg hreq
+    · simp at h
+
+/-- looking a field up in the extracted bindings -/
+theorem lookup_specVals (cfg : DumpCfg) (obj : List (String × Val)) (id : String) : ∀ (fs : List Field),
+    Val.lookup id (specVals cfg obj fs) = if fs.any (fun f => f.id == id) then dumpedOf cfg obj id else none
+  | [] => by simp [specVals, Val.lookup]
+  | f :: r => by
+    simp only [specVals, lookup_append, lookup_specVals cfg obj id r, List.any_cons]
+    by_cases hf : f.id = id
+    · subst hf
+      cases hd : dumpedOf cfg obj f.id <;> simp [Val.lookup]
+      try (split <;> simp_all)
+    · have : (f.id == id) = false := by simpa using hf
+      cases hd : dumpedOf cfg obj f.id <;> simp [Val.lookup, hf, this]
+
+/-- **the generated dumper without extra data**: on success the result is the crown rendered over the
+    extracted bindings, and every required field of the crown has been extracted -/
+theorem dumpModel_ok_noextra (cfg : DumpCfg) (crown : OutCrown) (obj : List (String × Val)) (out : Val)
+    (hmove : cfg.move = .none) (h : dumpModel cfg crown obj = .ok out) :
+    let direct := cfg.fields.filter fun f => crown.fieldIds.contains f.id
+    out = dumpCrown cfg obj (specVals cfg obj direct) crown ∧
+      ∀ f ∈ direct, f.required = true → ∃ v, dumpedOf cfg obj f.id = some v := by
+  intro direct
+  unfold dumpModel at h
+  simp only [hmove, OutExtraMove.targetIds, List.contains_nil, Bool.not_false, Bool.and_true] at h
+  split at h
+  · rename_i o heq
+    subst h
+    exfalso
+    -- the extraction loop never returns `ok`
+    have : ∀ (fs : List Field) (st : DState) (v : Val), extractFields cfg obj fs st ≠ .inr (.ok v) := by
+      intro fs
+      induction fs with
+      | nil => intro st v; simp [extractFields]
+      | cons f r ih =>
+        intro st v
+        unfold extractFields
+        split
+        · exact ih _ _
+        · rename_i o' heq'
+          intro hc
+          simp at hc
+          subst hc
+          unfold extractOne at heq'
+          split at heq'
+          · split at heq'
+            · split at heq' <;> simp at heq'
+            · simp at heq'
+          · split at heq'
+            · simp at heq'
+            · split at heq' <;> simp at heq'
+    exact this _ _ _ heq
+  · rename_i st heq
+    split at h
+    · simp at h
+    · rename_i herr
+      have he : st.errors = ({} : DState).errors := by
+        simp only [Bool.not_eq_true, Bool.not_eq_false', List.isEmpty_iff] at herr
+        simpa using herr
+      obtain ⟨a, r⟩ := extractFields_ok cfg obj _ {} st heq he
+      simp at h
+      subst h
+      have hv : st.vals = specVals cfg obj direct := by simpa [direct] using a
+      exact ⟨by rw [hv], by simpa [direct] using r⟩
+
+mutual
+/-- a field leaf of a crown is one of the crown's field ids -/
+theorem leaf_mem_fieldIds : ∀ (c : OutCrown) (q : Path) (id : String),
+    (q, Leaf.field id) ∈ c.leaves → id ∈ c.fieldIds
+  | .dict m s, q, id, h => by
+    simpa [OutCrown.fieldIds] using leaf_mem_fieldIdsD m q id (by simpa [OutCrown.leaves] using h)
+  | .list m, q, id, h => by
+    simpa [OutCrown.fieldIds] using leaf_mem_fieldIdsL m 0 q id (by simpa [OutCrown.leaves] using h)
+  | .field id', q, id, h => by
+    simp [OutCrown.leaves] at h
+    simp [OutCrown.fieldIds, h.2]
+  | .none ph, q, id, h => by simp [OutCrown.leaves] at h
+theorem leaf_mem_fieldIdsD : ∀ (m : List (String × OutCrown)) (q : Path) (id : String),
+    (q, Leaf.field id) ∈ OutCrown.leaves.goD m → id ∈ OutCrown.fieldIds.goD m
+  | [], q, id, h => by simp [OutCrown.leaves.goD] at h
+  | (k, c) :: r, q, id, h => by
+    simp only [OutCrown.leaves.goD, List.mem_append, List.mem_map] at h
+    simp only [OutCrown.fieldIds.goD, List.mem_append]
+    rcases h with ⟨⟨q', l'⟩, hx, he⟩ | h
+    · simp at he
+      obtain ⟨_, rfl⟩ := he
+      exact .inl (leaf_mem_fieldIds c q' id hx)
+    · exact .inr (leaf_mem_fieldIdsD r q id h)
+theorem leaf_mem_fieldIdsL : ∀ (m : List OutCrown) (i : Nat) (q : Path) (id : String),
+    (q, Leaf.field id) ∈ OutCrown.leaves.goL i m → id ∈ OutCrown.fieldIds.goL m
+  | [], i, q, id, h => by simp [OutCrown.leaves.goL] at h
+  | c :: r, i, q, id, h => by
+    simp only [OutCrown.leaves.goL, List.mem_append, List.mem_map] at h
+    simp only [OutCrown.fieldIds.goL, List.mem_append]
+    rcases h with ⟨⟨q', l'⟩, hx, he⟩ | h
+    · simp at he
+      obtain ⟨_, rfl⟩ := he
+      exact .inl (leaf_mem_fieldIds c q' id hx)
+    · exact .inr (leaf_mem_fieldIdsL r (i + 1) q id h)
+end
+
 end Adaptix.Layout
